@@ -58,8 +58,20 @@ func (fr *Frame) call(st *State, call ssa.CallInstruction) []Term {
 			args[i] = vc.coerce(args[i], c.Args[i].Type(), fn.Params[i].Type())
 		}
 	}
+	{
+		var ats []types.Type
+		for _, p := range fn.Params {
+			ats = append(ats, p.Type())
+		}
+		k := key
+		if !isModuleFunc(fn) {
+			k = extKey(fn)
+		}
+		vc.recordCallArgs(k, args, ats)
+	}
 	if h, ok := extHandlers[extKey(fn)]; ok {
 		if res, handled := h(fr, st, call, fn, args); handled {
+			vc.recordCallSyms(extKey(fn), fn.Signature, res)
 			return res
 		}
 	}
@@ -69,10 +81,18 @@ func (fr *Frame) call(st *State, call ssa.CallInstruction) []Term {
 	if ct := vc.C.Externs[extKey(fn)]; ct != nil {
 		return fr.applyContract(st, call, fn, ct, args, bindings)
 	}
-	if isModuleFunc(fn) && len(fn.Blocks) > 0 && fr.canInline(fn) {
-		return fr.inline(st, call, fn, args, bindings)
+	rk := key
+	if !isModuleFunc(fn) {
+		rk = extKey(fn)
 	}
-	return fr.defaultCall(st, call, key, fn.Signature, fn, c.Args, args)
+	if isModuleFunc(fn) && len(fn.Blocks) > 0 && fr.canInline(fn) {
+		res := fr.inline(st, call, fn, args, bindings)
+		vc.recordCallSyms(rk, fn.Signature, res)
+		return res
+	}
+	res := fr.defaultCall(st, call, key, fn.Signature, fn, c.Args, args)
+	vc.recordCallSyms(rk, fn.Signature, res)
+	return res
 }
 
 func extKey(fn *ssa.Function) string {
@@ -428,6 +448,17 @@ func (P *Program) nonNilResults(fn *ssa.Function) []bool {
 	return res
 }
 
+// realInstrs: instructions of b without debug references (budgets are in real instructions).
+func realInstrs(b *ssa.BasicBlock) int {
+	n := 0
+	for _, in := range b.Instrs {
+		if _, ok := in.(*ssa.DebugRef); !ok {
+			n++
+		}
+	}
+	return n
+}
+
 func (fr *Frame) canInline(fn *ssa.Function) bool {
 	if fr.depth >= fr.vc.opts.MaxInline {
 		return false
@@ -446,7 +477,7 @@ func (fr *Frame) canInline(fn *ssa.Function) bool {
 	}
 	n := 0
 	for _, b := range fn.Blocks {
-		n += len(b.Instrs)
+		n += realInstrs(b)
 	}
 	return n <= 400
 }
@@ -455,7 +486,7 @@ func (fr *Frame) inline(st *State, call ssa.CallInstruction, fn *ssa.Function, a
 	vc := fr.vc
 	vc.Inlined[funcKey(fn)] = true
 	for _, b := range fn.Blocks {
-		vc.inlinedInstrs += len(b.Instrs)
+		vc.inlinedInstrs += realInstrs(b)
 	}
 	sub := vc.newFrame(fn, fr)
 	out, res := sub.run(st, args, bindings)
@@ -600,6 +631,23 @@ func (fr *Frame) defaultCall(st *State, call ssa.CallInstruction, key string, si
 		}
 	}
 	return res
+}
+
+// recordCallArgs remembers the argument terms of the first call of key (for callarg() in contracts).
+func (vc *VC) recordCallArgs(key string, args []Term, ats []types.Type) {
+	if vc.callArgs == nil {
+		vc.callArgs = map[string][]cval{}
+	}
+	if _, ok := vc.callArgs[key]; ok {
+		return
+	}
+	var cs []cval
+	for i, a := range args {
+		if i < len(ats) {
+			cs = append(cs, cval{a, vc.ctOf(ats[i])})
+		}
+	}
+	vc.callArgs[key] = cs
 }
 
 func shortName(key string) string {
@@ -963,6 +1011,13 @@ func (fr *Frame) invoke(st *State, call ssa.CallInstruction) []Term {
 			args[i] = vc.coerce(args[i], c.Args[i].Type(), sig.Params().At(i).Type())
 		}
 	}
+	{
+		var ats []types.Type
+		for i := 0; i < sig.Params().Len(); i++ {
+			ats = append(ats, sig.Params().At(i).Type())
+		}
+		vc.recordCallArgs(mkey, args, ats)
+	}
 	if h, ok := ifaceHandlers[mkey]; ok {
 		if res, handled := h(fr, st, call, recv, args); handled {
 			return res
@@ -1045,7 +1100,12 @@ func (fr *Frame) dynamicCall(st *State, call ssa.CallInstruction, args []Term) [
 	sig := c.Signature()
 	vc.Abstracted["call through unresolved function value: "+describe(c.Value, 0)] = true
 	clkBefore := vc.bumpClock(st)
-	fr.havocArgs(st, c.Args, args, false, clkBefore)
+	if ct := vc.C.Externs["dyn:"+describe(c.Value, 0)]; ct != nil && ct.Pure {
+		// configured callback declared read-only in the specs (assumption, listed)
+		vc.Assumed["configured callback "+describe(c.Value, 0)+" does not modify its arguments (assumed spec "+ct.Origin+")"] = true
+	} else {
+		fr.havocArgs(st, c.Args, args, false, clkBefore)
+	}
 	var res []Term
 	for i := 0; i < sig.Results().Len(); i++ {
 		rs := vc.sortOf(sig.Results().At(i).Type())
